@@ -1871,7 +1871,8 @@ class ListBox(Widget, WidgetContainerMixin):
         from urwid.util import is_mouse_press
 
         (maxcol, maxrow) = size
-        middle, top, bottom = self.calculate_visible((maxcol, maxrow), focus=True)
+        # the rows as they were drawn: without focus the list is not scrolled to the focus widget's cursor
+        middle, top, bottom = self.calculate_visible((maxcol, maxrow), focus=focus)
         if middle is None:
             return False
 
